@@ -534,6 +534,27 @@ pub struct InferenceResult {
     pub any_were_unsafe_to_compile: bool,
 }
 
+/// verification hook: the history of the inference scheduler (one line per event), recorded at the
+/// points where the schedule changes: `seed` (everything registered at the start), `round`
+/// (what a round offers, and whether it is a cycle-breaking round), `done` (an item completed and
+/// was removed), `deps` (an item registered dependencies and stays pending)
+#[cfg(capy_verif)]
+pub mod verif_trace {
+    use std::cell::RefCell;
+
+    thread_local! {
+        static EVENTS: RefCell<Vec<String>> = const { RefCell::new(Vec::new()) };
+    }
+
+    pub fn emit(event: String) {
+        EVENTS.with(|e| e.borrow_mut().push(event));
+    }
+
+    pub fn take() -> Vec<String> {
+        EVENTS.with(|e| std::mem::take(&mut *e.borrow_mut()))
+    }
+}
+
 pub struct InferenceCtx<'a, F: EvalComptimeFn> {
     world_index: &'a hir::WorldIndex,
     world_bodies: &'a hir::WorldBodies,
@@ -604,6 +625,17 @@ impl<'a, F: EvalComptimeFn> InferenceCtx<'a, F> {
                     // }),
         );
 
+        #[cfg(capy_verif)]
+        verif_trace::emit(format!(
+            "seed\t{}",
+            self.to_infer
+                .verif_items()
+                .iter()
+                .map(|loc| loc.debug(self.interner))
+                .collect::<Vec<_>>()
+                .join("\t")
+        ));
+
         if self.to_infer.is_empty() {
             return InferenceResult {
                 tys: self.tys,
@@ -665,6 +697,17 @@ impl<'a, F: EvalComptimeFn> InferenceCtx<'a, F> {
 
             assert!(!leaves.is_empty());
 
+            #[cfg(capy_verif)]
+            verif_trace::emit(format!(
+                "round\t{}\t{}",
+                self.to_infer.in_cycle(),
+                leaves
+                    .iter()
+                    .map(|loc| loc.debug(self.interner))
+                    .collect::<Vec<_>>()
+                    .join("\t")
+            ));
+
             // println!("inferring leaves: {leaves:#?}");
 
             for inferrable in leaves {
@@ -681,9 +724,20 @@ impl<'a, F: EvalComptimeFn> InferenceCtx<'a, F> {
                             inferrable.debug(self.interner)
                         );
                         self.to_infer.remove(&inferrable);
+                        #[cfg(capy_verif)]
+                        verif_trace::emit(format!("done\t{}", inferrable.debug(self.interner)));
                     }
                     Err(deps) => {
                         // println!(" - requires deps");
+                        #[cfg(capy_verif)]
+                        verif_trace::emit(format!(
+                            "deps\t{}\t{}",
+                            inferrable.debug(self.interner),
+                            deps.iter()
+                                .map(|loc| loc.debug(self.interner))
+                                .collect::<Vec<_>>()
+                                .join("\t")
+                        ));
                         self.to_infer.insert_deps(inferrable, deps);
                     }
                 }
